@@ -1176,19 +1176,65 @@ func importCollection(r *kit.Result, fs []feature, single bool) {
 		return
 	}
 	if allOK {
-		kinds := map[string]bool{}
 		for i := range fs {
-			kinds[fs[i].g.kind] = true
+			if supported(fs[i].g.kind) {
+				r.Count("B:features-imported-faithfully:"+fs[i].g.kind, 1)
+			} else {
+				r.Count("B:features-skipped-unsupported-kind:"+fs[i].g.kind, 1)
+			}
 		}
-		var ks []string
-		for k := range kinds {
-			ks = append(ks, k)
-		}
-		sort.Strings(ks)
-		r.AddOutcome(fmt.Sprintf("B:imported-faithfully:len%d:%s", len(fs), strings.Join(ks, "+")))
+		r.AddOutcome(fmt.Sprintf("B:imported-faithfully:len%d", len(fs)))
 	} else {
 		r.AddOutcome("B:violation")
 	}
+}
+
+// ---------- part C: documents outside the typed statement (outcomes only) ----------
+
+type literalDoc struct{ name, text string }
+
+// RFC 7946 documents that the Go types of the geojson package cannot hold. The
+// typed statement does not cover them; what happens is recorded as an outcome
+// class (a panic would still be reported by the kit as a violation).
+var literalDocs = []literalDoc{
+	{"property-number", `{"type":"FeatureCollection","features":[{"type":"Feature","geometry":{"type":"Point","coordinates":[0.5,1.5]},"properties":{"lanes":2}}]}`},
+	{"property-bool", `{"type":"FeatureCollection","features":[{"type":"Feature","geometry":{"type":"Point","coordinates":[0.5,1.5]},"properties":{"oneway":true}}]}`},
+	{"property-null", `{"type":"FeatureCollection","features":[{"type":"Feature","geometry":{"type":"Point","coordinates":[0.5,1.5]},"properties":{"name":null}}]}`},
+	{"property-object", `{"type":"FeatureCollection","features":[{"type":"Feature","geometry":{"type":"Point","coordinates":[0.5,1.5]},"properties":{"a":{"b":"c"}}}]}`},
+	{"position-with-altitude", `{"type":"FeatureCollection","features":[{"type":"Feature","geometry":{"type":"Point","coordinates":[0.5,1.5,10]},"properties":{}}]}`},
+	{"geometry-null", `{"type":"FeatureCollection","features":[{"type":"Feature","geometry":null,"properties":{"name":"x"}}]}`},
+	{"geometry-collection", `{"type":"FeatureCollection","features":[{"type":"Feature","geometry":{"type":"GeometryCollection","geometries":[]},"properties":{}}]}`},
+	{"bare-geometry-passed-to-importer", `{"type":"Point","coordinates":[0.5,1.5]}`},
+	{"feature-id-member", `{"type":"FeatureCollection","features":[{"type":"Feature","id":"f1","geometry":{"type":"Point","coordinates":[0.5,1.5]},"properties":{"name":"x"}}]}`},
+}
+
+func literal(r *kit.Result, d literalDoc) {
+	r.Evals = 1
+	g, err := geojson.Unmarshal([]byte(d.text))
+	if err != nil {
+		r.AddOutcome("C:" + d.name + ":geojson.Unmarshal-rejects-with-error")
+		return
+	}
+	a := &ingest.AddFeatures{}
+	a.FillFromGeoJSON(g, ns)
+	w := ingest.NewBasicMutableWorld()
+	if _, err := a.Apply(w); err != nil {
+		r.AddOutcome("C:" + d.name + ":Apply-rejects-with-error")
+		return
+	}
+	f := w.FindFeatureByID(b6.FeatureID{Type: b6.FeatureTypePoint, Namespace: ns, Value: 0})
+	if f == nil {
+		r.AddOutcome("C:" + d.name + ":accepted:no-feature-added")
+		return
+	}
+	var tags []string
+	for _, t := range f.AllTags() {
+		if t.Key != b6.PointTag {
+			tags = append(tags, fmt.Sprintf("%s=%q", t.Key, t.Value.String()))
+		}
+	}
+	sort.Strings(tags)
+	r.AddOutcome("C:" + d.name + ":accepted:point-added-with-tags[" + strings.Join(tags, ",") + "]")
 }
 
 // ---------- space ----------
@@ -1265,6 +1311,24 @@ func partBCases(tier string) []bcase {
 			}
 		}
 	}
+	if tier == "thorough" { // length 4 over a smaller menu
+		quad := map[string]bool{"pt00": true, "ls3": true, "square+hole(cw)": true, "mp-2-disjoint": true, "multipoint-2": true, "multiline-2": true}
+		var qm []feature
+		for _, g := range validGeometries(placements[0]) {
+			if quad[g.name] {
+				qm = append(qm, feature{g, propMenu[0]})
+			}
+		}
+		for _, a := range qm {
+			for _, b := range qm {
+				for _, c := range qm {
+					for _, d := range qm {
+						out = append(out, bcase{fs: []feature{a, b, c, d}})
+					}
+				}
+			}
+		}
+	}
 	return out
 }
 
@@ -1300,9 +1364,10 @@ func main() {
 			}
 			bc := partBCases(tier)
 			nA := int64(len(ga))
-			bound := fmt.Sprintf("part A: %d geometries (grid %s; sequences/lists up to the tier's length bound); part B: %d collections of length 0..3 over %d geometries x %d(+%d reserved-key) property maps x %d placements, each through %d routes x %d world kinds",
-				len(ga), map[string]string{"quick": "3x3", "thorough": "4x4"}[tier], len(bc), len(validGeometries(placements[0])), len(propMenu), len(reservedProps), len(placements), len(routes), len(worlds))
-			return kit.FuncSpace{N: nA + int64(len(bc)), F: func(i int64) kit.Result {
+			bound := fmt.Sprintf("part A: %d geometries (grid %s; sequences/lists up to the tier's length bound); part B: %d collections of length 0..3 (thorough: 0..4) over %d geometries x %d(+%d reserved-key) property maps x %d placements, each through %d routes x %d world kinds; part C: %d literal documents outside the typed statement (outcomes only)",
+				len(ga), map[string]string{"quick": "3x3", "thorough": "4x4"}[tier], len(bc), len(validGeometries(placements[0])), len(propMenu), len(reservedProps), len(placements), len(routes), len(worlds), len(literalDocs))
+			nB := int64(len(bc))
+			return kit.FuncSpace{N: nA + nB + int64(len(literalDocs)), F: func(i int64) kit.Result {
 				var r kit.Result
 				if i < nA {
 					g := &ga[i]
@@ -1314,6 +1379,10 @@ func main() {
 					if i == 40 || i == nA-1 {
 						r.Sample = map[string]interface{}{"part": "A", "geometry": g.String()}
 					}
+					return r
+				}
+				if i >= nA+nB {
+					literal(&r, literalDocs[i-nA-nB])
 					return r
 				}
 				c := bc[i-nA]
